@@ -170,10 +170,7 @@ Print Assumptions C07_overlay_dir_is_oci_dir.
    property excludes (a layer carrying both a whiteout for a name and a directory of that name). The opacity of the
    sub-directory itself is the same statement one level down (served_opaque = presence of the marker, Proofs/Overlay.v).
 
-   The recursive lift ([served_stack_is_rootfs]: for every stack in the allowed class, folding overlayfs over the served
-   trees = folding OCI application over the layer trees, as whole trees) is NOT proved here; it follows the two per-directory
-   statements by induction on the path, and is checked model-free on every generated stack by the harness (overlay merge of
-   the crawled served trees vs OCI application of the tars). *)
+   The whole-tree statement built on the two per-directory ones is C07_served_stack_is_rootfs below. *)
 Theorem C07_child_merge_rule_partial :
   forall c self ch n lower_is_dir,
     image_name c n = true -> ~ (c_root c = true /\ n = state_dir_name) ->
@@ -197,8 +194,72 @@ Proof.
 Qed.
 Print Assumptions C07_child_merge_rule_refuted.
 
-(* ---- non-vacuity ---- *)
 Definition ex_attr (mode : Z) : attr := mkAttr 0 mode 0 0 0 0 1 0 [].
+
+(* THE STACK CLAUSE, whole trees: for every stack of layers in the allowed class and every path a kernel can walk, folding
+   overlayfs over the trees the layers SERVE (whiteouts as 0/0 character devices, opaque xattr, hidden markers — all read
+   through lookup_spec / xattr_value) resolves the path exactly as folding OCI image-spec application over the layers' MARKER
+   files does: same presence, same entry, same attributes. [allowed_stack] (Model/Overlay.v, a boolean, evaluated on the
+   example below) = every layer is a root whose every directory: has unique child names; carries no overlay opaque xattr
+   itself; has ids inside the inode space; holds no real 0/0 character device under an image name; and — the class the property
+   excludes — never both a whiteout for a name and a directory of that name; plus, in the layer root, no opaque marker
+   (overlayfs never consults the opaque xattr of a lower root) and no entry named like the state directory.
+   [path_ok] = components are non-empty, not "." / "..", not marker names; the first is not a root landmark / the state dir. *)
+Theorem C07_served_stack_is_rootfs :
+  forall (s : stack) (p : list string),
+    allowed_stack s = true -> path_ok p = true ->
+    resolve (overlay_stack s) p = resolve (oci_stack s) p.
+Proof. exact served_stack_is_rootfs. Qed.
+Print Assumptions C07_served_stack_is_rootfs.
+
+(* without the allowed class the statement is false: the property's excluded class (directory d + whiteout .wh.d over a
+   lower d/x: overlayfs still shows d/x, the image does not) ... *)
+Definition ex_dirmode : Z := 2^31 + 493.
+Definition ex_file (id : Z) : ltree := LT (mkEnt id (ex_attr 420)) [].
+Definition ex_dir (id : Z) (kids : list (string * ltree)) : ltree := LT (mkEnt id (ex_attr ex_dirmode)) kids.
+Theorem C07_served_stack_is_rootfs_refuted :
+  exists (s : stack) (p : list string), path_ok p = true /\ resolve (overlay_stack s) p <> resolve (oci_stack s) p.
+Proof.
+  exists [(mkCfg true 1 OpqTrusted, ex_dir 1 [("d"%string, ex_dir 2 [("x"%string, ex_file 3)])]);
+          (mkCfg true 2 OpqTrusted, ex_dir 1 [("d"%string, ex_dir 2 []); (".wh.d"%string, ex_file 3)])],
+         ["d"; "x"]%string.
+  vm_compute. split; [reflexivity|discriminate].
+Qed.
+Print Assumptions C07_served_stack_is_rootfs_refuted.
+
+(* ... and so is the exclusion of a real 0/0 character device (overlayfs reads it as a whiteout, the image keeps it). *)
+Theorem C07_served_stack_chardev00_refuted :
+  exists (s : stack) (p : list string), path_ok p = true /\ resolve (overlay_stack s) p <> resolve (oci_stack s) p.
+Proof.
+  exists [(mkCfg true 1 OpqTrusted, ex_dir 1 [("z"%string, LT (mkEnt 2 (ex_attr (2^26 + 2^21 + 420))) [])])], ["z"]%string.
+  vm_compute. split; [reflexivity|discriminate].
+Qed.
+Print Assumptions C07_served_stack_chardev00_refuted.
+
+(* non-vacuity of the stack theorem: a lower layer {a/{f,g,c/{h}}, f, b/{e}} under an upper layer
+   {a/{.wh.f, c/{opaque marker, e}}, .wh.b, f, landmark} is in the allowed class; a/f and b/e are gone, a/g comes from below,
+   a/c/h is hidden by the opaque directory, a/c/e and f come from the upper layer, the landmark is not part of the rootfs. *)
+Definition ex_lower : ltree :=
+  ex_dir 1 [("a"%string, ex_dir 2 [("f"%string, ex_file 3); ("g"%string, ex_file 4); ("c"%string, ex_dir 5 [("h"%string, ex_file 6)])]);
+            ("f"%string, ex_file 7); ("b"%string, ex_dir 8 [("e"%string, ex_file 9)])].
+Definition ex_upper : ltree :=
+  ex_dir 1 [("a"%string, ex_dir 2 [(".wh.f"%string, ex_file 3); ("c"%string, ex_dir 4 [(".wh..wh..opq"%string, ex_file 5); ("e"%string, ex_file 6)])]);
+            (".wh.b"%string, ex_file 7); ("f"%string, ex_file 8); (".no.prefetch.landmark"%string, ex_file 9)].
+Definition ex_stack : stack := [(mkCfg true 1 OpqTrusted, ex_lower); (mkCfg true 2 OpqTrusted, ex_upper)].
+Example C07_stack_nonvacuous :
+  allowed_stack ex_stack = true
+  /\ resolve (overlay_stack ex_stack) ["a"; "f"]%string = None
+  /\ resolve (overlay_stack ex_stack) ["b"; "e"]%string = None
+  /\ option_map (fun x => e_id (fst x)) (resolve (overlay_stack ex_stack) ["a"; "g"]%string) = Some 4
+  /\ option_map (fun x => f_ino (snd x)) (resolve (overlay_stack ex_stack) ["a"; "g"]%string) = Some (1 * 2^32 + 7)
+  /\ resolve (overlay_stack ex_stack) ["a"; "c"; "h"]%string = None
+  /\ option_map (fun x => f_ino (snd x)) (resolve (overlay_stack ex_stack) ["a"; "c"; "e"]%string) = Some (2 * 2^32 + 9)
+  /\ option_map (fun x => f_ino (snd x)) (resolve (overlay_stack ex_stack) ["f"]%string) = Some (2 * 2^32 + 11)
+  /\ resolve (oci_stack ex_stack) [".no.prefetch.landmark"]%string = None
+  /\ path_ok ["a"; "c"; "e"]%string = true.
+Proof. vm_compute. repeat split. Qed.
+
+(* ---- non-vacuity ---- *)
 Definition ex_children : children :=
   [("f"%string, mkEnt 2 (ex_attr 420)); (".wh.f"%string, mkEnt 3 (ex_attr 420)); (".wh.g"%string, mkEnt 4 (ex_attr 420));
    (".wh..wh..opq"%string, mkEnt 5 (ex_attr 420)); (".wh..wh.h"%string, mkEnt 6 (ex_attr 420));
